@@ -541,9 +541,11 @@ def check_form(ctx, form, klass, sig):
                                 for k, vv in segs:
                                     if k == "o":
                                         ctx.ctr("paths_judged")
-                                        nm = REF_RE.search(t).group(2)
+                                        mref = REF_RE.search(t)
+                                        nm = mref.group(2)
                                         tl = J.targets.get(nm)
-                                        if tl and len(tl) == 1 and vv.strip() != tl[0].path and len(REF_RE.findall(t)) == 1:
+                                        want = (f"instance('__last-saved'){tl[0].path}" if mref.group(1) is not None else tl[0].path) if tl else None
+                                        if tl and len(tl) == 1 and vv.strip() != want and len(REF_RE.findall(t)) == 1:
                                             ctx.viol("choice-label:wrong-path", f"choice label {tid} reference ${{{nm}}} became {vv!r}, node is {tl[0].path}", J.wit(cell="choice-label"))
     return p
 
@@ -613,13 +615,24 @@ def indexed_repeat_forms():
 
 def lone_cell_forms():
     """One reference in one cell of an otherwise reference-free form, per cell kind and owner kind: whatever a cell needs declared (the last-saved instance) must not depend on some other cell asking for it too."""
-    qcols = ["label", "hint", "guidance_hint", "constraint_message", "required_message", "relevant", "constraint", "required", "read_only", "calculation", "default", "choice_filter", "seed"]
+    qcols = ["label", "hint", "guidance_hint", "constraint_message", "required_message", "relevant", "constraint", "required", "read_only", "calculation", "default", "choice_filter", "seed",
+             "instance::marker", "bind::odk:note", "body::kb:flag", "choice-label", "constraint_message::en"]
     for ref in ("${last-saved#t}", "${t}"):
         for col in qcols:
             for wrap in ("top", "group", "repeat"):
                 cells = {"label": "x"}
                 typ = "integer"
-                if col in ("label", "hint", "guidance_hint", "constraint_message", "required_message"):
+                choice_label = "A"
+                if col == "choice-label":
+                    typ = "select_one l1"
+                    choice_label = f"A {ref} z"
+                    if wrap != "top":
+                        continue  # choice labels resolve references from the survey root: top-level owner only
+                elif col in ("instance::marker", "bind::odk:note", "body::kb:flag"):
+                    cells[col] = ref
+                elif col == "constraint_message::en":
+                    cells = {"label::en": "x", col: f"see {ref} here", "constraint": ". > 0"}
+                elif col in ("label", "hint", "guidance_hint", "constraint_message", "required_message"):
                     cells[col] = f"see {ref} here"
                 elif col == "seed":
                     typ = "select_one l1"
@@ -642,8 +655,8 @@ def lone_cell_forms():
                     body = [Row(wrap, f"begin {wrap}", "wrapper", {"label": "w"}, [q])]
                 f = Form()
                 f.survey = [Row("q", "integer", "t", {"label": "t"})] + body
-                f.choices = {"l1": [{"name": "a", "label": "A", "cf": "1"}]}
-                f.settings = {"form_id": "lone"}
+                f.choices = {"l1": [{"name": "a", "label": choice_label, "cf": "1"}]}
+                f.settings = {"form_id": "lone", "namespaces": 'kb="http://kobotoolbox.org/xforms"'}
                 yield f, f"lone|{ref[2:6]}|{col}|{wrap}"
         # the entities sheet: its expressions are cells like any other
         for col in ("label", "create_if", "update_if", "entity_id"):
